@@ -14,6 +14,12 @@ Theorem C09_coherent : forall t, In t all_tables ->
   chk_extended t = [] /\ chk_frozen t = [] /\ chk_finder t = [].
 Proof. intros t H. apply split6. exact (table_ok t H). Qed.
 
+(* The jump class of the opcodes that keep it in every CPython release that has them, by NAME - which reaches the tables of versions
+   with no interpreter here (1.0-2.6, 3.0-3.5, PyPy): FOR_LOOP, JUMP_FORWARD, SETUP_LOOP, SETUP_EXCEPT, FOR_ITER are relative jumps,
+   JUMP_ABSOLUTE and CONTINUE_LOOP absolute ones, in every table that defines them. *)
+Theorem C09_jump_classes_by_name : forall t, In t all_tables -> chk_jump_names t = [].
+Proof. exact table_jump_names_ok. Qed.
+
 (* For every table whose interpreter is installed (2.7, 3.6-3.13): opmap, HAVE_ARGUMENT,
    EXTENDED_ARG and the seven operand categories equal that interpreter's opcode module. *)
 Theorem C09_matches_oracle : forall t, In t all_tables -> oracle_failures_t t = [].
